@@ -26,20 +26,20 @@ type Mismatch struct {
 }
 
 type Report struct {
-	Property    string           `json:"property"`
-	Tier        string           `json:"tier"`
-	Seed        int64            `json:"seed"`
-	Evaluations int              `json:"evaluations"`
-	Nontrivial  int              `json:"distinct_nontrivial"`
-	Rule        string           `json:"rule"`
-	Samples     []interface{}    `json:"samples"`
-	Histogram   map[string]int   `json:"histogram"`
-	CorrCases   map[string]int   `json:"correspondence_cases"`
-	Mismatches  []Mismatch       `json:"mismatches"`
-	Violations  []Violation      `json:"violations"`
-	Notes       []string         `json:"notes"`
-	Exhaustive  bool             `json:"exhaustive"`
-	WallS       float64          `json:"wall_s"`
+	Property    string         `json:"property"`
+	Tier        string         `json:"tier"`
+	Seed        int64          `json:"seed"`
+	Evaluations int            `json:"evaluations"`
+	Nontrivial  int            `json:"distinct_nontrivial"`
+	Rule        string         `json:"rule"`
+	Samples     []interface{}  `json:"samples"`
+	Histogram   map[string]int `json:"histogram"`
+	CorrCases   map[string]int `json:"correspondence_cases"`
+	Mismatches  []Mismatch     `json:"mismatches"`
+	Violations  []Violation    `json:"violations"`
+	Notes       []string       `json:"notes"`
+	Exhaustive  bool           `json:"exhaustive"`
+	WallS       float64        `json:"wall_s"`
 	distinct    map[string]bool
 }
 
@@ -48,8 +48,8 @@ func newReport(id, tier string, seed int64) *Report {
 		distinct: map[string]bool{}, Samples: []interface{}{}, Mismatches: []Mismatch{}, Violations: []Violation{}, Notes: []string{}}
 }
 
-func (r *Report) hist(k string)          { r.Histogram[k]++ }
-func (r *Report) histN(k string, n int)  { r.Histogram[k] += n }
+func (r *Report) hist(k string)         { r.Histogram[k]++ }
+func (r *Report) histN(k string, n int) { r.Histogram[k] += n }
 func (r *Report) sample(s interface{}) {
 	if len(r.Samples) < 3 {
 		r.Samples = append(r.Samples, s)
